@@ -11,6 +11,8 @@ LABEL_POOLS = [
     [-5, 0, "a", 2.5, None, ("t", 1)],
     ["x0", "x1", "x2", "x3", "x4", "x5"],
     [3, 7, 1, 0, 12, 5],
+    [-1, -2, "a", -3, 1, "b"],                 # hash(-1) == hash(-2) in CPython: distinct labels with equal hashes
+    [1000, 257, ("v", 7), "lab", 300.5, 2],    # labels that are not interned singletons: equal objects need not be identical
 ]
 MATRIX_POOLS = [[0, 1, 2, 3, 4, 5], [0, 2, 3, 6, 7, 9], [1, 4, 5, 8, 2, 11]]
 
@@ -21,13 +23,32 @@ def labels(rng, n, matrix=False):
     return pool[:n]
 
 
+def fresh(l):
+    """an equal label that is (where CPython allows) a different object: callers build labels at run time"""
+    if isinstance(l, tuple) and l:
+        return tuple(list(l))
+    if isinstance(l, str) and len(l) > 1:
+        return "".join(list(l))
+    if isinstance(l, bool) or l is None:
+        return l
+    if isinstance(l, int) and not -6 < l < 257:
+        return int(str(l))
+    if isinstance(l, float):
+        return float(repr(l))
+    return l
+
+
 def rand_key(rng, labs, maxdeg, raw=False):
     """raw: may repeat labels and is unsorted"""
     d = rng.randint(0, maxdeg)
     if raw:
-        return tuple(rng.choice(labs) for _ in range(d))
-    d = min(d, len(labs))
-    return tuple(rng.sample(labs, d))
+        k = tuple(rng.choice(labs) for _ in range(d))
+    else:
+        d = min(d, len(labs))
+        k = tuple(rng.sample(labs, d))
+    if rng.random() < 0.3:
+        k = tuple(fresh(x) for x in k)
+    return k
 
 
 def rand_terms(rng, labs, maxdeg, nterms=None, coefs=None, raw=False, lo=0, hi=6):
